@@ -54,6 +54,43 @@ func runC13(c *core.Ctx) {
 	}
 	checkRecovery(c)
 	checkMarker(c)
+	if rd != nil {
+		checkCountedOff(c, rd)
+	}
+	c.Rule("R13.5", "the request rebuilt for a retry keeps keys, opaques and quiet flags aligned entry by entry (one origin, one variable per appended triple)", 1)
+	checkParallelSlicesIn(c, "R13.5", pkgFuncs(c, relBatched))
+}
+
+// checkCountedOff (R13.4): every reply the reader delivers is counted off the channel's outstanding-reply count
+// before the next reply is read; recovery relies on that count to know who still waits.
+func checkCountedOff(c *core.Ctx, rd *ssa.Function) {
+	c.Rule("R13.4", "every reply the reader hands to a caller is counted off that channel's outstanding count before the next reply is read: recovery sends the retry marker exactly to the channels that still wait", 3)
+	pv := &ssax.Prov{}
+	counts := map[string]int{}
+	ssax.Instrs(rd, func(ins ssa.Instruction) {
+		snd, ok := ins.(*ssa.Send)
+		if !ok || !strings.HasSuffix(types.TypeString(snd.X.Type(), nil), "batched.response") {
+			return
+		}
+		key := ordinalKey(counts, "reader#reply-counted-off")
+		chanSrc := strings.Join(ssax.Strings(pv.Sources(snd.Chan)), ",")
+		hit, _ := (ssax.Reach{
+			Target: func(x ssa.Instruction) bool {
+				cc := ssax.CallOf(x)
+				return cc != nil && ssax.CalleeName(cc) == pBinprot+".ReadResponseHeader"
+			},
+			Avoid: func(x ssa.Instruction) bool {
+				mu, ok := x.(*ssa.MapUpdate)
+				if !ok || !isFieldLoad(mu.Map, "channels") {
+					return false
+				}
+				return strings.Join(ssax.Strings(pv.Sources(mu.Key)), ",") == chanSrc
+			},
+		}).From(ins)
+		// also the drained exit: reaching the close loop without the decrement is equally wrong, but closing covers it
+		c.Check(hit == nil, "R13.4", key, c.P.Pos(ins.Pos()), "the delivered reply is counted off before the next header is read",
+			"a reply is delivered without decrementing the channel's outstanding count: if the connection is cut later in the batch, recovery sends the retry marker on a channel nobody reads any more and blocks forever - the pooled connection never reconnects")
+	})
 }
 
 func checkReaderHandoff(c *core.Ctx, rd *ssa.Function) {
